@@ -30,6 +30,10 @@ for f in sorted(glob.glob(LOGS + '/*.out')):
     if keys: layers.append('S '+', '.join(keys[:3]))
     if 'harness-run' in out: layers.append('harness aborted')
     nf='no-failing-input-found' in out
+    neutral=os.path.exists('/verif/seeded/%s/NEUTRALISED.txt'%sid)
+    if neutral and not viol:
+        rows.append((sid,prop,'no (correctly)','the change no longer breaks the property on the current tree - its own demonstration passes; see seeded/%s/NEUTRALISED.txt'%sid,title))
+        continue
     rows.append((sid,prop,'yes' if viol else '**NO**', '; '.join(layers) + (' (no failing input found)' if nf else ''), title))
 print('| seed | property | reported | what fired (P theorem / T translator / X correspondence / S search key) | change |')
 print('|---|---|---|---|---|')
